@@ -11,11 +11,22 @@ type sig struct {
 	Name      string
 	Ins, Outs []Field
 	IsStage   bool
+	// HasMap: the callable (transitively) contains a mapped call.
+	HasMap bool
+	// TaintedOuts: outputs whose value is (built from) the merged outputs
+	// of a mapped call.
+	TaintedOuts map[string]bool
 }
 
+// A source is tainted when its value is (built from) the merged outputs of
+// a mapped call.  Known defects of the runtime (see DESIGN.md, findings on
+// nested mapped calls) make mapping a pipeline that itself contains mapped
+// calls over such a value fail; the main stream avoids exactly that shape,
+// and the known-findings corpus keeps the failing programs.
 type src struct {
-	E *Exp
-	T *Ty
+	E       *Exp
+	T       *Ty
+	Tainted bool
 }
 
 // Opts tunes the shape grammar.
@@ -33,11 +44,15 @@ func DefaultOpts() Opts {
 }
 
 type G struct {
-	r       *hx.Rng
-	o       Opts
-	structs map[string][]Field
-	counter int64
-	Stats   map[string]int
+	// noTaint: expFor must not use tainted sources (set while binding the
+	// inputs of a callable that contains mapped calls)
+	noTaint  bool
+	nonEmpty bool // randValue: collections have at least one element, no nulls
+	r        *hx.Rng
+	o        Opts
+	structs  map[string][]Field
+	counter  int64
+	Stats    map[string]int
 }
 
 func NewG(r *hx.Rng, o Opts) *G {
@@ -67,7 +82,7 @@ func (g *G) fieldsOf(name string) []Field { return g.structs[name] }
 // randValue builds a literal value of type t (ints are globally distinct so
 // that every fork of a mapped call sees different arguments).
 func (g *G) randValue(t *Ty, depth int) hx.JV {
-	if depth > 0 && g.r.Intn(12) == 0 {
+	if depth > 0 && !g.nonEmpty && g.r.Intn(12) == 0 {
 		return hx.JNull()
 	}
 	switch t.K {
@@ -87,6 +102,9 @@ func (g *G) randValue(t *Ty, depth int) hx.JV {
 		return hx.JObj(o)
 	case "arr":
 		n := g.r.Intn(4)
+		if g.nonEmpty && n == 0 {
+			n = 1
+		}
 		a := make([]hx.JV, n)
 		for i := range a {
 			a[i] = g.randValue(t.Elem, depth+1)
@@ -94,6 +112,9 @@ func (g *G) randValue(t *Ty, depth int) hx.JV {
 		return hx.JArr(a)
 	case "tmap":
 		n := g.r.Intn(4)
+		if g.nonEmpty && n == 0 {
+			n = 1
+		}
 		var o []hx.JKV
 		for i := 0; i < n; i++ {
 			o = append(o, hx.JKV{Key: fmt.Sprintf("k%d", i), Val: g.randValue(t.Elem, depth+1)})
@@ -194,7 +215,7 @@ func (g *G) withProjections(s src, depth int) []src {
 		}
 		e := *s.E
 		e.Path = append(append([]string(nil), s.E.Path...), f.Name)
-		out = append(out, g.withProjections(src{&e, ft}, depth-1)...)
+		out = append(out, g.withProjections(src{&e, ft, s.Tainted}, depth-1)...)
 	}
 	return out
 }
@@ -203,7 +224,7 @@ func (g *G) withProjections(s src, depth int) []src {
 func (g *G) expFor(t *Ty, srcs []src, depth int) *Exp {
 	var cands []src
 	for _, s := range srcs {
-		if g.assignable(t, s.T) {
+		if g.assignable(t, s.T) && !(g.noTaint && s.Tainted) {
 			cands = append(cands, s)
 		}
 	}
@@ -222,14 +243,22 @@ func (g *G) expFor(t *Ty, srcs []src, depth int) *Exp {
 		switch t.K {
 		case "arr":
 			e := &Exp{K: "arr"}
-			for i, n := 0, g.r.Intn(4); i < n; i++ {
+			n := g.r.Intn(4)
+			if g.nonEmpty && n == 0 {
+				n = 1
+			}
+			for i := 0; i < n; i++ {
 				e.Items = append(e.Items, g.expFor(t.Elem, srcs, depth+1))
 			}
 			g.Stats["bind_array_literal"]++
 			return e
 		case "tmap":
 			e := &Exp{K: "obj"}
-			for i, n := 0, g.r.Intn(4); i < n; i++ {
+			n := g.r.Intn(4)
+			if g.nonEmpty && n == 0 {
+				n = 1
+			}
+			for i := 0; i < n; i++ {
 				e.Keys = append(e.Keys, fmt.Sprintf("k%d", i))
 				e.Items = append(e.Items, g.expFor(t.Elem, srcs, depth+1))
 			}
@@ -391,8 +420,9 @@ func wrapTy(t *Ty, mode string) *Ty {
 	return t
 }
 
-func (g *G) genPipeline(name string, callables []sig) *Pipeline {
+func (g *G) genPipeline(name string, callables []sig) (*Pipeline, sig) {
 	p := &Pipeline{Name: name}
+	me := sig{Name: name, TaintedOuts: map[string]bool{}}
 	for i, n := 0, 1+g.r.Intn(3); i < n; i++ {
 		p.Ins = append(p.Ins, Field{fmt.Sprintf("p%d", i), g.randType()})
 	}
@@ -401,7 +431,7 @@ func (g *G) genPipeline(name string, callables []sig) *Pipeline {
 	}
 	var srcs []src
 	for _, f := range p.Ins {
-		srcs = append(srcs, g.withProjections(src{&Exp{K: "ref", Src: "self", Out: f.Name}, f.T}, 2)...)
+		srcs = append(srcs, g.withProjections(src{&Exp{K: "ref", Src: "self", Out: f.Name}, f.T, false}, 2)...)
 	}
 	usedCallee := map[string]int{}
 	ncalls := 1 + g.r.Intn(4)
@@ -413,6 +443,9 @@ func (g *G) genPipeline(name string, callables []sig) *Pipeline {
 			c.ID = fmt.Sprintf("%s_A%d", callee.Name, ci)
 			g.Stats["aliased_call"]++
 		}
+		// binding the inputs of a callable that contains mapped calls: no
+		// tainted sources, no empty literal collections (see type src)
+		g.noTaint, g.nonEmpty = callee.HasMap, callee.HasMap
 		if g.o.MapCalls && g.r.Intn(5) < 2 {
 			c.Mapped = "arr"
 			if g.r.Intn(3) == 0 {
@@ -433,15 +466,22 @@ func (g *G) genPipeline(name string, callables []sig) *Pipeline {
 			wantSplit := c.Mapped != "" && (g.r.Bool() || (pi == len(callee.Ins)-1 && nsplit == 0))
 			if wantSplit {
 				ct := wrapTy(in.T, c.Mapped)
+				if c.Mapped == "map" && hasMap(in.T) {
+					// map<map<...>> is not a type; the compiler accepts the
+					// binding and the resolver then panics (recorded finding)
+					wantSplit = false
+				}
 				var cands []src
-				if !usedRefSplit && nsplit == 0 {
+				if wantSplit && !usedRefSplit && nsplit == 0 {
 					for _, s := range srcs {
-						if g.assignable(ct, s.T) {
+						if g.assignable(ct, s.T) && !(g.noTaint && s.Tainted) {
 							cands = append(cands, s)
 						}
 					}
 				}
-				if len(cands) > 0 && g.r.Intn(4) != 0 {
+				if !wantSplit {
+					// fall through to the plain binding below
+				} else if len(cands) > 0 && g.r.Intn(4) != 0 {
 					b.E = hx.Pick(g.r, cands).E
 					usedRefSplit = true
 					g.Stats["split_over_reference"]++
@@ -489,27 +529,44 @@ func (g *G) genPipeline(name string, callables []sig) *Pipeline {
 				g.Stats["disabled_call"]++
 			}
 		}
+		g.noTaint, g.nonEmpty = false, false
 		p.Calls = append(p.Calls, c)
+		if c.Mapped != "" || callee.HasMap {
+			me.HasMap = true
+		}
+		if c.Mapped != "" && callee.HasMap {
+			g.Stats["nested_map_call"]++
+		}
 		// the call's outputs become sources
-		whole := src{&Exp{K: "ref", Src: c.ID}, wrapTy(TStruct(callee.Name), c.Mapped)}
+		anyTaint := c.Mapped != ""
+		for _, o := range callee.Outs {
+			if callee.TaintedOuts[o.Name] {
+				anyTaint = true
+			}
+		}
+		whole := src{&Exp{K: "ref", Src: c.ID}, wrapTy(TStruct(callee.Name), c.Mapped), anyTaint}
 		srcs = append(srcs, whole)
 		for _, o := range callee.Outs {
 			srcs = append(srcs, g.withProjections(
-				src{&Exp{K: "ref", Src: c.ID, Out: o.Name}, wrapTy(o.T, c.Mapped)}, 1)...)
+				src{&Exp{K: "ref", Src: c.ID, Out: o.Name}, wrapTy(o.T, c.Mapped),
+					c.Mapped != "" || callee.TaintedOuts[o.Name]}, 1)...)
 		}
 	}
 	// outputs: bound to available sources, or literals
 	for i, n := 0, 1+g.r.Intn(3); i < n; i++ {
 		var t *Ty
 		var e *Exp
+		tainted := false
 		if g.r.Intn(6) != 0 {
 			s := hx.Pick(g.r, srcs)
-			t, e = s.T, s.E
+			t, e, tainted = s.T, s.E, s.Tainted
 		} else {
 			t = g.randType()
 			e = g.expFor(t, srcs, 0)
+			tainted = expTainted(e, srcs)
 		}
 		name := fmt.Sprintf("r%d", i)
+		me.TaintedOuts[name] = tainted
 		p.Outs = append(p.Outs, Field{name, t})
 		p.Ret = append(p.Ret, Bind{Param: name, E: e})
 	}
@@ -531,7 +588,29 @@ func (g *G) genPipeline(name string, callables []sig) *Pipeline {
 	}
 	p.Ins = ins
 	g.structs[name] = p.Outs
-	return p
+	me.Ins, me.Outs = p.Ins, p.Outs
+	return p, me
+}
+
+// expTainted: does the expression mention a tainted source?
+func expTainted(e *Exp, srcs []src) bool {
+	if e == nil {
+		return false
+	}
+	if e.K == "ref" {
+		for _, s := range srcs {
+			if s.Tainted && s.E.Src == e.Src && s.E.Out == e.Out {
+				return true
+			}
+		}
+		return false
+	}
+	for _, x := range e.Items {
+		if expTainted(x, srcs) {
+			return true
+		}
+	}
+	return false
 }
 
 // Gen builds one random program.
@@ -545,7 +624,7 @@ func (g *G) Gen(stageCmd string) *Program {
 	for i := 0; i < nst; i++ {
 		s := g.genStage(fmt.Sprintf("ST%d", i))
 		p.Stages = append(p.Stages, s)
-		callables = append(callables, sig{s.Name, s.Ins, s.Outs, true})
+		callables = append(callables, sig{Name: s.Name, Ins: s.Ins, Outs: s.Outs, IsStage: true})
 	}
 	depth := 1 + g.r.Intn(g.o.MaxDepth)
 	var last *Pipeline
@@ -553,10 +632,10 @@ func (g *G) Gen(stageCmd string) *Program {
 	for lvl := 0; lvl < depth; lvl++ {
 		var made []sig
 		for i, k := 0, 1+g.r.Intn(2); i < k; i++ {
-			pl := g.genPipeline(fmt.Sprintf("PL%d", n), callables)
+			pl, sg := g.genPipeline(fmt.Sprintf("PL%d", n), callables)
 			n++
 			p.Pipelines = append(p.Pipelines, pl)
-			made = append(made, sig{pl.Name, pl.Ins, pl.Outs, false})
+			made = append(made, sg)
 			last = pl
 		}
 		callables = append(callables, made...)
